@@ -24,7 +24,7 @@ ASSUMPTIONS = [
   "multi-contact CCD pairs: contact count is not compared (algorithms differ by design, put_model warns)",
 ]
 BUDGET = {
-  "quick": dict(examples=800, seconds=150, workers=16),
+  "quick": dict(examples=800, seconds=420, workers=16),
   "thorough": dict(examples=24000, seconds=1500, workers=16),
 }
 
